@@ -102,7 +102,7 @@ def main(argv):
         hist, first = Counter(), {}
         with ProcessPoolExecutor(max_workers=jobs, mp_context=get_context("fork"),
                                  initializer=runner._worker_init) as pool:
-            futs = [pool.submit(runner._work, pid, base, a, min(a + step, n), 0) for a in range(0, n, step)]
+            futs = [pool.submit(runner._work_isolated, pid, base, a, min(a + step, n), 0) for a in range(0, n, step)]
             for f in futs:
                 for rec in f.result():
                     key = rec.get("sig") if rec.get("status") == "violation" else rec.get("status")
